@@ -24,9 +24,53 @@ def in_width(q):
     if q[0] not in (True, False):
         return False
     for i, w in WIDTH.items():
+        if i < len(q) and q[i] is None and i < 13:
+            return False                                  # only the arguments may be absent
         if i < len(q) and q[i] is not None and not (0 <= q[i] < (1 << w)):
             return False
     return True
+
+
+# field values given as numpy scalars travel as {"np": type name, "v": value}; the oracle and the model see
+# the integer value int(x), and for reply_expected the truth value bool(x)
+NP_TYPES = {"uint8": (0, 2 ** 8 - 1), "int8": (-2 ** 7, 2 ** 7 - 1), "uint16": (0, 2 ** 16 - 1),
+            "int16": (-2 ** 15, 2 ** 15 - 1), "uint32": (0, 2 ** 32 - 1), "int32": (-2 ** 31, 2 ** 31 - 1),
+            "uint64": (0, 2 ** 64 - 1), "int64": (-2 ** 63, 2 ** 63 - 1)}
+
+
+def npv(t, v):
+    return {"np": t, "v": v}
+
+
+def plain(x):
+    if isinstance(x, dict):
+        return bool(x["v"]) if x["np"] == "bool_" else int(x["v"])
+    if isinstance(x, list):
+        return [plain(y) for y in x]
+    return x
+
+
+def plain_packet(q):
+    q = plain(q)
+    if q[0] is not None:
+        q[0] = bool(q[0])
+    return q
+
+
+def plain_case(c):
+    if c[0] in ("enc_sdp", "enc_scp"):
+        return [c[0], plain_packet(c[1])] + list(c[2:])
+    return c
+
+
+def modelable(c):
+    """the Gallina model speaks of integer fields: a header field, cmd_rc or seq left at None is outside it"""
+    return not (c[0] in ("enc_sdp", "enc_scp") and any(v is None for v in c[1][:13]))
+
+
+def np_int8_port(raw):
+    """a port given as numpy.int8 with value 4..7 (see the known finding numpy-int8-port)"""
+    return any(isinstance(raw[i], dict) and raw[i]["np"] == "int8" and 4 <= raw[i]["v"] <= 7 for i in (2, 4))
 
 
 def args_prefix(q):
@@ -218,6 +262,50 @@ def gen_cases(rng, tier):
     return cases
 
 
+# ------------------------------------------------------------------ numpy scalars, truthy flags
+FLAG_VALUES = [True, False, 1, 0, 2, npv("bool_", True), npv("bool_", False)]
+
+
+def gen_numpy(rng, tier):
+    """field values given as numpy integer scalars of every width, flags given as bools / ints / numpy bools"""
+    cases = []
+
+    def add(q, stream, scp=True):
+        cases.append(dict(case=["enc_scp", q, n_present(plain(q))] if scp else ["enc_sdp", q[:11]], stream=stream))
+    for rep in range(1 if tier == "quick" else 10):
+        for f, w in WIDTH.items():
+            for t, (lo, hi) in NP_TYPES.items():
+                vals = {0, 1, (1 << w) - 1, 1 << (w - 1), rng.randint(0, (1 << w) - 1)}
+                if w <= 5:
+                    vals |= set(range(1 << w))
+                for v in sorted(vals):
+                    if lo <= v <= hi:
+                        q = rand_packet(rng, 3)
+                        q[f] = npv(t, v)
+                        add(q, "numpy", scp=(f > 10 or rng.random() < 0.7))
+                # outside the width but inside the type (ports and cores: masked after int(); others: struct.error)
+                for v in (-1, 1 << w, (1 << w) + 5):
+                    if lo <= v <= hi:
+                        q = rand_packet(rng, 3)
+                        q[f] = npv(t, v)
+                        add(q, "numpy-outofwidth")
+        for v in FLAG_VALUES:
+            for scp in (False, True):
+                q = rand_packet(rng)
+                q[0] = v
+                add(q, "flag-values", scp)
+        # every field a numpy scalar at once, types mixed
+        for j in range(150):
+            q = rand_packet(rng)
+            for f, w in WIDTH.items():
+                if q[f] is not None:
+                    ts = [t for t, (lo, hi) in NP_TYPES.items() if q[f] <= hi]
+                    q[f] = npv(rng.choice(ts), q[f])
+            q[0] = rng.choice(FLAG_VALUES)
+            add(q, "numpy-all", rng.random() < 0.7)
+    return cases
+
+
 # ------------------------------------------------------------------ object-reuse histories
 def rand_value(rng, f):
     """an in-width value for field f of a packet"""
@@ -259,6 +347,30 @@ def gen_histories(rng, tier):
                        ["trunc", rng.randrange(n)], ["enc", k],
                        ["extend", [rng.randint(0, 255) for _ in range(rng.randint(1, 6))]], ["enc", k]]
                 out.append(["hist_enc", kind, q if kind == "scp" else q[:11], True, ops])
+    # -- error paths: an encode attempt that raises (a field still None, or outside its width), the field is then
+    #    assigned a good value and the SAME object is encoded again (twice)
+    for rep in range(scale):
+        for kind, fields in (("sdp", list(range(1, 10))), ("scp", list(range(1, 10)) + [11, 12, 13, 14, 15])):
+            for f in fields:
+                for bad in ("none", "wide", "numpy"):
+                    q = rand_packet(rng, 3)
+                    if bad == "none":
+                        if f >= 13:
+                            continue
+                        q[f] = None
+                    elif bad == "wide":
+                        q[f] = pick_bad(rng, WIDTH[f])
+                    else:
+                        q[f] = npv("int64", pick_bad(rng, min(WIDTH[f], 32)))
+                    good = pick(rng, WIDTH[f])
+                    ops = [["enc", 3], ["set", f, good if rng.random() < 0.7 else npv("uint32", good), False],
+                           ["enc", 3], ["enc", 3]]
+                    if rng.random() < 0.5:             # two bad fields, repaired one after the other
+                        g = rng.choice([x for x in fields if x != f and x < 13])
+                        q[g] = None
+                        ops = [["enc", 3], ["set", f, good, False], ["enc", 3],
+                               ["set", g, pick(rng, WIDTH[g]), False], ["enc", 3], ["enc", 3]]
+                    out.append(["hist_enc", kind, q if kind == "scp" else q[:11], rng.random() < 0.3, ops])
     # -- random histories
     for j in range(250 * scale):
         kind = rng.choice(["sdp", "scp", "scp"])
@@ -340,7 +452,7 @@ def history_steps(h):
             if st[0] == "dec":
                 out.append(["dec_scp", st[2], st[3]] if st[1] == "scp" else ["dec_sdp", st[2]])
         return out
-    cur = [list(x) if isinstance(x, list) else x for x in h[2]]
+    cur = plain_packet(h[2])
     for op in h[4]:
         if op[0] == "enc":
             snap = [list(x) if isinstance(x, list) else x for x in cur]
@@ -350,7 +462,7 @@ def history_steps(h):
             else:
                 out.append(["enc_sdp", snap])
         elif op[0] == "set":
-            cur[op[1]] = list(op[2]) if op[1] == DATA else op[2]
+            cur[op[1]] = list(op[2]) if op[1] == DATA else bool(plain(op[2])) if op[1] == 0 else plain(op[2])
         elif op[0] == "poke":
             cur[DATA][op[1]] = op[2]
         elif op[0] == "trunc":
@@ -627,7 +739,7 @@ def run(chk, args):
                 cases.append(dict(case=r["case"], stream="replay"))
         sweeps = []
     else:
-        cases = gen_cases(chk.rng, chk.tier)
+        cases = gen_cases(chk.rng, chk.tier) + gen_numpy(chk.rng, chk.tier)
         sweeps = sweep_cases(chk.rng, chk.tier)
         hists = gen_histories(chk.rng, chk.tier)
     corpus = os.path.join(lib.VERIF, "corpus", "C15.json")
@@ -654,15 +766,16 @@ def run(chk, args):
         for i, (vc, o) in enumerate(zip(st, ho[1])):
             cases.append(dict(case=vc, stream="reuse-" + h[0][5:], hist=(h, i)))
             outs.append(o)
-    flat = [x["case"] for x in cases]
+    flat = [plain_case(x["case"]) for x in cases]     # what the oracle and the model are asked: int(x) / bool(x)
+    hits = set()                                      # indices on which the oracle reported a failing input
 
     def report(hit, replay):
         if hit[0] in reported or len(reported) >= 25:      # one concrete input per kind of failure
             return
         reported.add(hit[0])
         chk.fail_input(hit[0], hit[1], replay)
-    for x, o in zip(cases, outs):
-        c = x["case"]
+    for ci, (x, o) in enumerate(zip(cases, outs)):
+        c = flat[ci]
         chk.count("stream:" + x["stream"])
         chk.count("kind:" + c[0])
         chk.count("outcome:" + str(o[0]))
@@ -675,15 +788,21 @@ def run(chk, args):
                   (c[0] == "dec_scp" and len(c[1]) >= 14) or (c[0] == "dec_sdp" and len(c[1]) >= 10)
         chk.note_case(c, nontriv)
         hit = oracle(c, o)
-        if hit and "hist" in x:
+        if hit:
+            hits.add(ci)
+        if hit and hit[0] == "encode-raises" and o[1] == "struct.error" and np_int8_port(x["case"][1]):
+            hit = ("numpy-int8-port", hit[1] + " [a port given as numpy.int8 4..7: (port & 7) << 5 is evaluated "
+                   "in int8 and wraps negative]")
+            report(hit, dict(case=x["case"], observed=o, stream=x["stream"]))
+        elif hit and "hist" in x:
             report(("reuse-" + hit[0], "step %d of a history on one object (judged on the current values): %s"
                     % (x["hist"][1], hit[1])),
                    dict(history=x["hist"][0], step=x["hist"][1], case=c, observed=o, stream=x["stream"]))
         elif hit:
-            report(hit, dict(case=c, observed=o, stream=x["stream"]))
+            report(hit, dict(case=x["case"], observed=o, stream=x["stream"]))
         if "iso" in x:
             f, j = x["iso"]
-            hit = isolation(f, cases[j]["case"][1], outs[j], c[1], o)
+            hit = isolation(f, flat[j][1], outs[j], c[1], o)
             chk.count("isolation-pairs")
             if hit:
                 report(hit, dict(case=c, partner=cases[j]["case"], field=f, observed=[outs[j], o], stream=x["stream"]))
@@ -701,14 +820,18 @@ def run(chk, args):
     if chk.model_ok:
         try:
             msw = [s for s in sweeps if s[0] != "sweep16raw"]
-            mcases = flat + msw
-            mouts = outs + [o for s, o in zip(sweeps, souts) if s[0] != "sweep16raw"]
-            vals = chk.coq_eval(HEADER, [coq_expr(c) for c in flat], shard=250)
+            midx = [i for i, c in enumerate(flat) if modelable(c)]
+            mflat = [flat[i] for i in midx]
+            mcases = mflat + msw
+            mouts = [outs[i] for i in midx] + [o for s, o in zip(sweeps, souts) if s[0] != "sweep16raw"]
+            vals = chk.coq_eval(HEADER, [coq_expr(c) for c in mflat], shard=250)
             vals += chk.coq_eval(HEADER, [coq_expr(c) for c in msw], shard=3, name="sweep")
             bad = 0
-            for c, o, v in zip(mcases, mouts, vals):
+            for k, (c, o, v) in enumerate(zip(mcases, mouts, vals)):
                 chk.traces_validated += 1
                 m, i = canon_model(c, v), canon_impl(c, o)
+                if m != i and k < len(midx) and midx[k] in hits:
+                    continue            # already reported as a failing input of the implementation by the oracle
                 if m != i:
                     bad += 1
                     if bad <= 3:
@@ -745,5 +868,8 @@ def run(chk, args):
         "assign a field, every SDP and SCP field, on SDPPacket and SCPPacket, bytes and bytearray payload / "
         "change the bytearray in place: poke, refill, truncate, extend / encode again; decode / modify or turn "
         "around the decoded object / decode datagrams with the same and with a different header), every step "
-        "judged against the current values. non-trivial = encoding of an in-width packet that "
+        "judged against the current values; error-path histories (an encode that raises because a field is None "
+        "or outside its width, each header/SCP field in turn, then the field repaired and the same object encoded "
+        "again); field values given as numpy integer scalars of all eight types (model and oracle see int(x)), "
+        "flags given as True/False/1/0/2/numpy.bool_ (bool(x)). non-trivial = encoding of an in-width packet that "
         "succeeds, or decoding of a string holding a complete header; distinct by hash of the whole case")
